@@ -24,6 +24,7 @@ func runC02(c *Ctx) {
 	c.Rule("O2.5", "next part starts at previous finish: startNext starts scheds[0] with its argument, and every caller passes the time returned by the exhausted part's Next on its !ok edge")
 	c.Rule("O2.6", "start once: MarkStarted panics on the true edge of started.Swap(true); start/finish times are written only inside startOnce.Do closures")
 	c.Rule("O2.7", "finish callback fires on both signals, once: onFinish is only ever invoked through onFinishOnce.Do, reached exactly on the !ok edge of Next and on the left==0 edge of Left")
+	c.Rule("O2.9", "the composite reports 'finished' only from its last part: every path of compositeSchedule.Next that returns a part's ok=false (not the recursive retry) proves through the comparisons taken on it that one part was left when that part's Next was called (len(scheds) read in the same critical section, minus startNext shifts, <= 1)")
 	c.Rule("O2.8", "doAtSchedule.Left clamps: returns 0 on the n-i < 0 edge and n-i otherwise")
 	P := c.P
 	sp := P.SSAPkg("core/schedule")
@@ -307,6 +308,11 @@ func runC02(c *Ctx) {
 		}
 	}
 	// ---------------- O2.3 / O2.5
+	if cn := P.Func("core/schedule", "compositeSchedule", "Next"); cn != nil && startNext != nil {
+		c02FinalOnlyFromLastPart(c, cn, startNext)
+	} else {
+		c.Anchor("O2.9", "core/schedule.(*compositeSchedule).Next / startNext")
+	}
 	if startNext == nil {
 		c.Anchor("O2.3", "core/schedule.(*compositeSchedule).startNext")
 	} else {
@@ -644,4 +650,177 @@ func isComposite(v ssa.Value) bool {
 	}
 	_, n := NamedOf(v.Type())
 	return n == "compositeSchedule"
+}
+
+// c02FinalOnlyFromLastPart decides O2.9 on compositeSchedule.Next by
+// enumerating its (loop-free) paths: on every path that returns ok=false taken
+// from a part's Next call C (not from the recursive retry), the number of parts
+// that were left when C was made is provably 1: some len(s.scheds) value L read
+// in the same critical section as C, minus the startNext shifts between the
+// read and C, is bounded by 1 through the comparisons taken on the path.
+func c02FinalOnlyFromLastPart(c *Ctx, next, startNext *ssa.Function) {
+	key := fk(next)
+	paths, complete := EnumPaths(next, 4096)
+	if !complete {
+		c.Unknown("O2.9", key+":paths", next.Pos(), "too many paths to enumerate")
+		return
+	}
+	isSchedsLen := func(v ssa.Value) bool {
+		cl, ok := v.(*ssa.Call)
+		return ok && IsBuiltinCall(cl, "len") && IsFieldLoad(cl.Call.Args[0], "compositeSchedule", "scheds")
+	}
+	isPartNext := func(in ssa.Instruction) bool {
+		cc := CC(in)
+		if cc == nil || !cc.IsInvoke() || cc.Method.Name() != "Next" {
+			return false
+		}
+		return DerivesAny(cc.Value, true, IsFieldLoadPred("compositeSchedule", "scheds")) || SliceAny(cc.Value, func(v ssa.Value) bool {
+			if ia, ok := v.(*ssa.IndexAddr); ok {
+				return IsFieldLoad(ia.X, "compositeSchedule", "scheds")
+			}
+			if u, ok := v.(*ssa.UnOp); ok && u.Op == token.MUL {
+				if ia, ok := u.X.(*ssa.IndexAddr); ok {
+					return IsFieldLoad(ia.X, "compositeSchedule", "scheds")
+				}
+			}
+			return false
+		})
+	}
+	isUnlock := func(in ssa.Instruction) bool {
+		return IsCall(in, Spec{"sync", "RWMutex", "Unlock"}, Spec{"sync", "RWMutex", "RUnlock"})
+	}
+	nFinal, bad := 0, 0
+	for _, p := range paths {
+		last := p.Blocks[len(p.Blocks)-1]
+		ret, isRet := last.Instrs[len(last.Instrs)-1].(*ssa.Return)
+		if !isRet || len(ret.Results) != 2 {
+			continue
+		}
+		okv := p.Resolve(ret.Results[1])
+		ex, isEx := okv.(*ssa.Extract)
+		if !isEx {
+			if cv, isC := ConstCond(okv); isC && cv {
+				continue
+			}
+			c.Unknown("O2.9", key+":ok-result", ret.Pos(), "cannot identify the call that produced the returned ok")
+			bad++
+			continue
+		}
+		call, _ := ex.Tuple.(*ssa.Call)
+		if call == nil {
+			continue
+		}
+		if call.Call.StaticCallee() == next {
+			continue // recursive retry: decided inductively
+		}
+		if !isPartNext(call) {
+			c.Unknown("O2.9", key+":ok-result", ret.Pos(), "the returned ok does not come from a part's Next or from the retry")
+			bad++
+			continue
+		}
+		cmps, bools := p.Facts()
+		if HasBoolFact(bools, func(v ssa.Value) bool { return v == ssa.Value(ex) }, true) {
+			continue // ok is true on this path
+		}
+		nFinal++
+		// events along the path
+		ins := p.Instrs()
+		pos := map[ssa.Instruction]int{}
+		for i, in := range ins {
+			pos[in] = i
+		}
+		cpos, seen := pos[call]
+		if !seen {
+			continue
+		}
+		// upper bounds of len values from facts
+		bound := func(v ssa.Value) (int64, bool) {
+			best, have := int64(0), false
+			upd := func(k int64) {
+				if !have || k < best {
+					best, have = k, true
+				}
+			}
+			for _, f := range cmps {
+				for _, g := range []Fact{f, {Op: flipTok(f.Op), X: f.Y, Y: f.X}} {
+					if g.X != v {
+						continue
+					}
+					k, isK := ConstInt(g.Y)
+					if !isK {
+						continue
+					}
+					switch g.Op {
+					case token.EQL, token.LEQ:
+						upd(k)
+					case token.LSS:
+						upd(k - 1)
+					}
+				}
+			}
+			return best, have
+		}
+		proved := false
+		why := ""
+		for li, in := range ins {
+			v, isV := in.(ssa.Value)
+			if !isV || !isSchedsLen(v) {
+				continue
+			}
+			lo, hi := li, cpos
+			if lo > hi {
+				lo, hi = hi, lo
+			}
+			shifts, unlocked := int64(0), false
+			for k := lo; k <= hi; k++ {
+				if cc := CC(ins[k]); cc != nil && cc.StaticCallee() == startNext {
+					shifts++
+				}
+				if isUnlock(ins[k]) {
+					unlocked = true
+				}
+			}
+			if unlocked {
+				continue
+			}
+			if li > cpos && shifts > 0 {
+				continue
+			}
+			if b, ok := bound(v); ok && b-shifts <= 1 {
+				proved = true
+				why = fmt.Sprintf("len(scheds) read at %s is <= %d on this path, %d shift(s) before the part's Next", c.P.Pos(v.Pos()), b, shifts)
+				break
+			}
+		}
+		if proved {
+			c.OK("O2.9", fmt.Sprintf("%s:final-not-ok-only-from-the-last-part#%d", key, nFinal), ret.Pos(), why)
+		} else {
+			bad++
+			c.Bad("O2.9", fmt.Sprintf("%s:final-not-ok-only-from-the-last-part#%d", key, nFinal), ret.Pos(),
+				"a path returns ok=false from a part's Next without the comparisons on that path proving that it was the last part (len(scheds) minus shifts <= 1, read in the same critical section): the composite reports 'finished' while later parts still hold tokens; path "+pathBlocks(p))
+		}
+	}
+	c.Floor("O2.9", "paths of compositeSchedule.Next returning a part's ok=false", nFinal, 2)
+}
+
+func flipTok(op token.Token) token.Token {
+	switch op {
+	case token.LSS:
+		return token.GTR
+	case token.GTR:
+		return token.LSS
+	case token.LEQ:
+		return token.GEQ
+	case token.GEQ:
+		return token.LEQ
+	}
+	return op
+}
+
+func pathBlocks(p *Path) string {
+	idx := make([]int, len(p.Blocks))
+	for i, b := range p.Blocks {
+		idx[i] = b.Index
+	}
+	return PathString(idx)
 }
